@@ -15,6 +15,8 @@ import TgModel.Lemmas.IdeSemDiagCore
 import TgModel.Lemmas.IdeSemCore
 import TgModel.Lemmas.IdeSemCoreP
 import TgModel.Lemmas.IdeSemCoreT
+import TgModel.Lemmas.Sem10Core5
+import TgModel.Lemmas.Sem10List
 import TgModel.Props.C03
 
 namespace Tg.C13
@@ -1892,194 +1894,8 @@ theorem innerValue_suffixes (r : Rec) (n : PTree) (sv : PTree) (hsv : Ast.innerV
     rw [h2]
 
 
-/-! list literals: the one type of the elements -/
-
-/-- one step of the fold over the element types of a list literal: the running element type afterwards,
-and whether the element is reported -/
-def listStep (sm : SymMap) (annotated : Bool) (cur typ : Ty) : Ty × Bool :=
-  if sm.canBeCastedTo typ cur then (cur, false)
-  else if !annotated && sm.canBeCastedTo cur typ then (typ, false)
-  else
-    match (if annotated then none else sm.commonTyp cur typ) with
-    | some cm => (cm, false)
-    | none => (cur, true)
-
-/-- the fold: the element type in the end, and the clashing pairs (running type, element type) in order -/
-def listFold (sm : SymMap) (annotated : Bool) : Option Ty → List Ty → Option Ty × List (Ty × Ty)
-  | e, [] => (e, [])
-  | none, t :: ts => listFold sm annotated (some t) ts
-  | some cur, t :: ts =>
-    let r := listFold sm annotated (some (listStep sm annotated cur t).1) ts
-    (r.1, if (listStep sm annotated cur t).2 then (cur, t) :: r.2 else r.2)
-
-def listClashMessage (p : Ty × Ty) : String := s!"list elements of type '{p.1}' and '{p.2}' are incompatible"
-
-def reportClashes (c : IndexCtx) (f : Nat) (rg : Nat × Nat) (ps : List (Ty × Ty)) : IndexCtx :=
-  ps.foldl (fun c p => c.report f rg (listClashMessage p)) c
-
-
-theorem reportClashes_fileTrace (c : IndexCtx) (f : Nat) (rg : Nat × Nat) (ps : List (Ty × Ty)) :
-    (reportClashes c f rg ps).fileTrace = c.fileTrace := by
-  unfold reportClashes
-  induction ps generalizing c with
-  | nil => rfl
-  | cons p t ih => simp only [List.foldl_cons]; rw [ih]; rfl
-
-theorem reportClashes_symbolMap (c : IndexCtx) (f : Nat) (rg : Nat × Nat) (ps : List (Ty × Ty)) :
-    (reportClashes c f rg ps).symbolMap = c.symbolMap := by
-  unfold reportClashes
-  induction ps generalizing c with
-  | nil => rfl
-  | cons p t ih => simp only [List.foldl_cons]; rw [ih]; rfl
-
-/-- the reports are appended, all at the same range of the current file -/
-theorem reportClashes_diagnostics (c : IndexCtx) (f : Nat) (rg : Nat × Nat) (ps : List (Ty × Ty)) :
-    (reportClashes c f rg ps).diagnostics =
-      c.diagnostics ++ (ps.map fun p => { location := ⟨f, rg.1, rg.2⟩, message := listClashMessage p }).toArray := by
-  unfold reportClashes
-  induction ps generalizing c with
-  | nil => simp
-  | cons p t ih =>
-    simp only [List.foldl_cons]
-    rw [ih]
-    apply Array.ext'
-    simp [IndexCtx.report]
-
-/-- an element fits the running element type: it can be cast to it, or - in a literal without annotation -
-the running type can be cast to the element's, or the two have a common type -/
-def listFits (sm : SymMap) (annotated : Bool) (cur typ : Ty) : Bool :=
-  sm.canBeCastedTo typ cur || (!annotated && (sm.canBeCastedTo cur typ || (sm.commonTyp cur typ).isSome))
-
-/-- **an element is reported iff it fits in none of the three ways** -/
-theorem listStep_reported (sm : SymMap) (annotated : Bool) (cur typ : Ty) :
-    (listStep sm annotated cur typ).2 = !listFits sm annotated cur typ := by
-  unfold listStep listFits
-  cases sm.canBeCastedTo typ cur <;> cases annotated <;> cases sm.canBeCastedTo cur typ <;>
-    cases sm.commonTyp cur typ <;> rfl
-
-/-- the fold of `indexSimpleValue` over the element types, for any loop body that does what the model's does -/
-theorem listFold_run (f : Nat) (rest : List Nat) (rg : Nat × Nat) (annotated : Bool)
-    (G : Ty → Option Ty → IxM (ForInStep (Option Ty)))
-    (hG0 : ∀ typ c, (G typ none).run c = .ok (.yield (some typ), c))
-    (hG : ∀ typ cur c, c.fileTrace = f :: rest → (G typ (some cur)).run c =
-      .ok (.yield (some (listStep c.symbolMap annotated cur typ).1),
-        if (listStep c.symbolMap annotated cur typ).2 then c.report f rg (listClashMessage (cur, typ)) else c)) :
-    ∀ (tys : List Ty) (e : Option Ty) (c : IndexCtx), c.fileTrace = f :: rest →
-      (forIn tys e G).run c =
-        .ok ((listFold c.symbolMap annotated e tys).1, reportClashes c f rg (listFold c.symbolMap annotated e tys).2) := by
-  intro tys
-  induction tys with
-  | nil => intro e c _; cases e <;> rfl
-  | cons t ts ih =>
-    intro e c hc
-    rw [List.forIn_cons]
-    cases e with
-    | none =>
-      simp only [StateT.run_bind, hG0, Except.ok_bind]
-      rw [ih (some t) c hc]
-      rfl
-    | some cur =>
-      simp only [StateT.run_bind, hG t cur c hc, Except.ok_bind]
-      by_cases hr : (listStep c.symbolMap annotated cur t).2 = true
-      · simp only [hr, if_true]
-        rw [ih _ (c.report f rg (listClashMessage (cur, t))) (by simpa using hc)]
-        simp only [IndexCtx.report_symbolMap, listFold, hr, if_true]
-        rfl
-      · simp only [hr, Bool.false_eq_true, if_false]
-        rw [ih _ c hc]
-        simp only [listFold, hr, Bool.false_eq_true, if_false]
-
-/-- the elements of a list literal are indexed one after the other; the types of those that have one are
-collected -/
-inductive ElemRuns (r : Rec) : List PTree → Array Ty → IndexCtx → Array Ty → IndexCtx → Prop
-  | nil (acc : Array Ty) (c : IndexCtx) : ElemRuns r [] acc c acc c
-  | cons (v : PTree) (vs : List PTree) (acc : Array Ty) (c : IndexCtx) (t : Option Ty) (c1 : IndexCtx)
-      (acc' : Array Ty) (c' : IndexCtx) : (r.value v).run c = .ok (t, c1) →
-      ElemRuns r vs (match t with | some ty => acc.push ty | none => acc) c1 acc' c' →
-      ElemRuns r (v :: vs) acc c acc' c'
-
-theorem elems_run (r : Rec) (B : PTree → Array Ty → IxM (ForInStep (Array Ty)))
-    (hB : ∀ v acc c t c1, (r.value v).run c = .ok (t, c1) →
-      (B v acc).run c = .ok (.yield (match t with | some ty => acc.push ty | none => acc), c1))
-    (vs : List PTree) (acc : Array Ty) (c : IndexCtx) (acc' : Array Ty) (c' : IndexCtx)
-    (h : ElemRuns r vs acc c acc' c') : (forIn vs acc B).run c = .ok (acc', c') := by
-  induction h with
-  | nil => rfl
-  | cons v vs acc c t c1 acc' c' hv _ ih =>
-    rw [List.forIn_cons]
-    simp only [StateT.run_bind, hB v acc c t c1 hv, Except.ok_bind]
-    exact ih
-
-/-- **site L-list `list elements of type '…' and '…' are incompatible`, a literal without annotation**: after
-the elements have been indexed (sub-calls: `ElemRuns`), the arm is exactly the fold `listFold`: the element
-type is the widest of the element types or what they have in common, and every element that fits the
-running type in none of the three ways (`listStep_reported`) is reported, at the range of the whole literal,
-in the current file -/
-theorem list_literal (r : Rec) (n vl : PTree) (hk : n.kind = .List) (hvl : Ast.listValueList n = some vl)
-    (c c1 : IndexCtx) (tys : Array Ty) (helems : ElemRuns r (Ast.valueListValues vl) #[] c tys c1)
-    (hty : Ast.listType n = none) (f : Nat) (rest : List Nat) (hft : c1.fileTrace = f :: rest) :
-    (indexSimpleValue r n).run c =
-      .ok (some (.list ((listFold c1.symbolMap false none tys.toList).1.getD .any)),
-        reportClashes c1 f (nodeRange n) (listFold c1.symbolMap false none tys.toList).2) := by
-  unfold indexSimpleValue
-  simp only [hk, hvl, hty, StateT.run_bind]
-  rw [elems_run r _ ?_ _ _ _ _ _ helems]
-  · simp only [Except.ok_bind]
-    rw [listFold_run f rest (nodeRange n) false _ ?_ ?_ tys.toList none c1 hft]
-    · rfl
-    · intro typ c; rfl
-    · intro typ cur c hc
-      unfold listStep
-      cases sm1 : c.symbolMap.canBeCastedTo typ cur <;> cases sm2 : c.symbolMap.canBeCastedTo cur typ <;>
-        cases hcm : c.symbolMap.commonTyp cur typ <;>
-        simp only [StateT.run_bind, canBeCastedTo_run, sm1, sm2, hcm, withSM_run, Except.ok_bind,
-          error_run _ _ c f rest hc, StateT.run_pure, Bool.false_eq_true, if_false, if_true, Option.isSome_none,
-          Bool.not_false, Bool.true_and, Bool.and_true, Bool.and_false] <;> rfl
-  · intro v acc c t c2 hv
-    simp only [StateT.run_bind, hv, Except.ok_bind]
-    cases t <;> rfl
-
-/-- **site L-list, an annotated literal `[…]<T>`**: the annotation is resolved by `r.typ` (a class that
-does not exist is reported there: site T1, `type_class_lookup`; e.g. `[]<Undefined>`); the elements must be
-castable to `T`, nothing else helps -/
-theorem list_literal_annotated (r : Rec) (n vl tn : PTree) (hk : n.kind = .List) (hvl : Ast.listValueList n = some vl)
-    (c c1 c2 : IndexCtx) (tys : Array Ty) (helems : ElemRuns r (Ast.valueListValues vl) #[] c tys c1)
-    (hty : Ast.listType n = some tn) (t : Ty) (htr : (r.typ tn).run c1 = .ok (some t, c2))
-    (f : Nat) (rest : List Nat) (hft : c2.fileTrace = f :: rest) :
-    (indexSimpleValue r n).run c =
-      .ok (some (.list ((listFold c2.symbolMap true (some t) tys.toList).1.getD .any)),
-        reportClashes c2 f (nodeRange n) (listFold c2.symbolMap true (some t) tys.toList).2) := by
-  unfold indexSimpleValue
-  simp only [hk, hvl, hty, StateT.run_bind]
-  rw [elems_run r _ ?_ _ _ _ _ _ helems]
-  · simp only [Except.ok_bind, htr, StateT.run_bind]
-    rw [listFold_run f rest (nodeRange n) true _ ?_ ?_ tys.toList (some t) c2 hft]
-    · rfl
-    · intro typ c; rfl
-    · intro typ cur c hc
-      unfold listStep
-      cases sm1 : c.symbolMap.canBeCastedTo typ cur <;> cases sm2 : c.symbolMap.canBeCastedTo cur typ <;>
-        simp only [StateT.run_bind, canBeCastedTo_run, sm1, sm2, Except.ok_bind,
-          error_run _ _ c f rest hc, StateT.run_pure, Bool.false_eq_true, if_false, if_true, Option.isSome_some,
-          Bool.not_true, Bool.false_and, pure_bind] <;> rfl
-  · intro v acc c t c2 hv
-    simp only [StateT.run_bind, hv, Except.ok_bind]
-    cases t <;> rfl
-
-/-- an annotation that does not resolve: the literal has no type, and nothing more is reported -/
-theorem list_literal_unresolved (r : Rec) (n vl tn : PTree) (hk : n.kind = .List) (hvl : Ast.listValueList n = some vl)
-    (c c1 c2 : IndexCtx) (tys : Array Ty) (helems : ElemRuns r (Ast.valueListValues vl) #[] c tys c1)
-    (hty : Ast.listType n = some tn) (htr : (r.typ tn).run c1 = .ok (none, c2)) :
-    (indexSimpleValue r n).run c = .ok (none, c2) := by
-  unfold indexSimpleValue
-  simp only [hk, hvl, hty, StateT.run_bind]
-  rw [elems_run r _ ?_ _ _ _ _ _ helems]
-  · simp only [Except.ok_bind, htr]
-    rfl
-  · intro v acc c t c2 hv
-    simp only [StateT.run_bind, hv, Except.ok_bind]
-    cases t <;> rfl
-
+/-! list literals: the one type of the elements - site LL: `listStep`, `listFold`, `listStep_reported`,
+`list_literal`, `list_literal_annotated`, `list_literal_unresolved` are in `Lemmas/Sem10List.lean` -/
 
 /-! bang operators: the helpers through which 35 of the 52 `ctx.error` sites of `bang_operator.rs` go -/
 
@@ -2887,22 +2703,73 @@ parameters and positional template arguments,
   parents to its left, and the parameters) - whose type can be cast to the type of the `i`-th parameter,
   and the parameters after the `n`-th have defaults.
 
-Rejected (not covered): named template arguments, class values and every other value form as initialiser
-or argument, identifiers naming anything but a field or parameter in scope, `list<…>` and class types,
-`defvar`, `foreach`, `if`, `defset`, `multiclass`/`defm`, bang operators, `include`, top-level `let`. -/
-def coreProgramB (sl : PTree) : Bool := coreProgramB12 sl || coreStatementList3 sl || coreStatementList4 sl
+Accepted by `coreStatementList5` (`Lemmas/Sem10Core5.lean`), wider again: the same with `defvar`,
+* `defvar x = v;` may stand at top level and among the items of a class / def body; `v` is a single literal or
+  a single identifier in scope, and `x` gets its type (the type of the literal, or the declared type of the
+  field / parameter / variable named);
+* the identifiers in scope - for initialisers, `let` values, `defvar` values, positional template arguments -
+  are, in this order: the `defvar`s of the body so far (the latest of a name first), the fields in scope, the
+  parameters of the class, the top-level `defvar`s so far (the latest of a name first); at top level only the
+  top-level `defvar`s; defaults of template parameters may not name a `defvar`;
+* a `def` statement must have its record body node (`def d;` and `def d { … }` have one; a `def` node that the
+  parser left without one would leave its scope on the stack, and the variables of the root scope could no
+  longer be told from those of that scope).
 
-/-- **(6a')** on a core program the indexer appends no diagnostic, from a context with a current file
-and an empty symbol map (the third checker follows the class table from its beginning) -/
-theorem core_statements_quiet' (k : Nat) (sl : PTree) (hcore : coreProgramB sl = true) (c c' : IndexCtx)
+Accepted by `coreStatementList6` (`Lemmas/Sem10Core5.lean`), wider again: the same with lists,
+* the type of a field may also be `list<T>` with `T` primitive;
+* `init` of a field definition or a `let` may also be a list literal `[v1, …, vn]`, `n ≥ 1`, without type
+  annotation, whose elements are single literals of one and the same literal type `L` (integers; strings; …),
+  provided `list<L>` can be cast to the declared type (`list<int>` to `list<bit>` / `list<bits<n>>` / `list<int>`, …);
+* fields of list type may be named as initialisers and `defvar` values like the others (a `list<A>` value is
+  castable to a `list<B>` field iff `A` is castable to `B`).
+
+Rejected (not covered): named template arguments, class values and every other value form as initialiser,
+argument or `defvar` value (the empty list `[]`, annotated lists `[…]<T>`, lists of identifiers or of literals
+of different types, nested lists included), identifiers naming anything but a variable, field or parameter in
+scope, `list<list<…>>`, `list<C>` and class types, template parameters of list type, `defvar` in `foreach` /
+`if` / `multiclass` bodies, `foreach`, `if`, `defset`, `multiclass`/`defm`, bang operators, `include`,
+top-level `let`. -/
+def coreProgramB (sl : PTree) : Bool :=
+  coreProgramB12 sl || coreStatementList3 sl || coreStatementList4 sl || coreStatementList5 sl || coreStatementList6 sl
+
+/-- the judgement of (6) before lists were added -/
+def coreProgramB5 (sl : PTree) : Bool :=
+  coreProgramB12 sl || coreStatementList3 sl || coreStatementList4 sl || coreStatementList5 sl
+
+/-- the judgement of (6) before `defvar` was added -/
+def coreProgramB34 (sl : PTree) : Bool := coreProgramB12 sl || coreStatementList3 sl || coreStatementList4 sl
+
+/-- **(6a')** on a program of the first four checkers the indexer appends no diagnostic, from a context with a
+current file and an empty symbol map (the third checker follows the class table from its beginning) -/
+theorem core_statements_quiet' (k : Nat) (sl : PTree) (hcore : coreProgramB34 sl = true) (c c' : IndexCtx)
     (hsm : c.symbolMap = {}) (htr : c.fileTrace ≠ [])
     (h : ((mkRec (k + 2)).statementList sl).run c = .ok ((), c')) : c'.diagnostics = c.diagnostics := by
-  unfold coreProgramB at hcore
+  unfold coreProgramB34 at hcore
   rcases Bool.or_eq_true_iff.1 hcore with h12 | h4
   · rcases Bool.or_eq_true_iff.1 h12 with h1 | h3
     · exact core_statements_quiet k sl h1 c c' htr h
     · exact indexStatementList3_quiet k sl h3 c c' hsm htr h
   · exact indexStatementList4_quiet k sl h4 c c' hsm htr h
+
+/-- **(6a'')** on a core program the indexer appends no diagnostic, from a context with a current file, an empty
+symbol map and the initial scope stack (the fifth checker follows the variables of the root scope) -/
+theorem core_statements_quiet5 (k : Nat) (sl : PTree) (hcore : coreProgramB5 sl = true) (c c' : IndexCtx)
+    (hsm : c.symbolMap = {}) (hsc : c.scopes = {}) (htr : c.fileTrace ≠ [])
+    (h : ((mkRec (k + 2)).statementList sl).run c = .ok ((), c')) : c'.diagnostics = c.diagnostics := by
+  unfold coreProgramB5 at hcore
+  rcases Bool.or_eq_true_iff.1 hcore with h34 | h5
+  · exact core_statements_quiet' k sl h34 c c' hsm htr h
+  · exact indexStatementList5_quiet k sl h5 c c' hsm hsc htr h
+
+/-- **(6a''')** the same for the whole judgement, with one more level of fuel (the sixth checker indexes the
+elements of list literals one level deeper) -/
+theorem core_statements_quiet6 (k : Nat) (sl : PTree) (hcore : coreProgramB sl = true) (c c' : IndexCtx)
+    (hsm : c.symbolMap = {}) (hsc : c.scopes = {}) (htr : c.fileTrace ≠ [])
+    (h : ((mkRec (k + 3)).statementList sl).run c = .ok ((), c')) : c'.diagnostics = c.diagnostics := by
+  unfold coreProgramB at hcore
+  rcases Bool.or_eq_true_iff.1 hcore with h5 | h6
+  · exact core_statements_quiet5 (k + 1) sl h5 c c' hsm hsc htr h
+  · exact indexStatementList6_quiet k sl h6 c c' hsm hsc htr h
 
 /-- **(6b) `core_no_diagnostics_partial`**: a workspace whose root file is a core program
 (`coreProgramB`, see there for exactly what is accepted) and has no other statements - in particular
@@ -2926,7 +2793,7 @@ theorem core_no_diagnostics_partial (ws : Workspace) (res : IndexResult) (h : in
         rw [hsl]
       rw [this] at hrun
       exact hrun
-    exact core_statements_quiet' (j + 1) sl hcore _ _ rfl (by simp [IndexCtx.new]) hrun'
+    exact core_statements_quiet6 j sl hcore _ _ rfl rfl (by simp [IndexCtx.new]) hrun'
 
 /-- the judgement on the root file of a workspace -/
 def coreWorkspaceB (ws : Workspace) : Bool :=
@@ -3243,6 +3110,59 @@ theorem core4Source_checked :
 example : ∃ ws res, buildWorkspace [("/w/core.td", core4Source)] "/w/core.td" none = .ok ws ∧
     coreWorkspaceB ws = true ∧ index ws = .ok res ∧ res.diagnostics = #[] :=
   checked_no_diagnostics _ _ core4Source_checked
+
+/-- the same kind of program with `defvar`: top-level variables used in class bodies, body variables, a variable
+that copies an inherited field, a `let` from a top-level variable -/
+def core5Source : String :=
+  "defvar XLen = 32;\n" ++
+  "class Reg<string n, bits<16> enc = 0> { defvar w = XLen; string AsmName = n; bits<16> Enc = enc; int Size = w; }\n" ++
+  "defvar Prefix = \"x\";\n" ++
+  "class GPR<string n> : Reg<n> { defvar bytes = 8; let Size = XLen; int Width = bytes; string Alt = Prefix; }\n" ++
+  "def X0 : GPR<\"x0\"> { defvar idx = 0; int Index = idx; defvar alias = AsmName; string Alias = alias; }\n"
+
+/-- the program is built by `buildWorkspace` and accepted by the judgement - by the fifth checker only (checked
+by evaluation) -/
+theorem core5Source_checked :
+    checkedSrc core5Source (fun sl => coreStatementList5 sl && !coreProgramB34 sl) = true := by decide +kernel
+
+/-- its index run succeeds (C03) and - by `core_workspace_no_diagnostics` - reports nothing -/
+example : ∃ ws res, buildWorkspace [("/w/core.td", core5Source)] "/w/core.td" none = .ok ws ∧
+    coreWorkspaceB ws = true ∧ index ws = .ok res ∧ res.diagnostics = #[] :=
+  checked_no_diagnostics _ _ core5Source_checked
+
+/-- the same kind of program with lists: `list<string>` / `list<int>` / `list<bit>` fields, list literals as
+initialisers and `let` values, a list field as initialiser -/
+def core6Source : String :=
+  "defvar XLen = 32;\n" ++
+  "class Reg<string n> { string AsmName = n; list<string> AltNames = [\"a\", \"b\"]; list<int> CostPerUse = [0]; int Size = XLen; }\n" ++
+  "class GPR<string n> : Reg<n> { let CostPerUse = [1, 2, 3]; list<int> Copy = CostPerUse; list<bit> Flags; }\n" ++
+  "def X0 : GPR<\"x0\"> { let AltNames = [\"zero\"]; let Flags = [0, 1]; }\n"
+
+/-- the program is built by `buildWorkspace` and accepted by the judgement - by the sixth checker only (checked
+by evaluation) -/
+theorem core6Source_checked :
+    checkedSrc core6Source (fun sl => coreStatementList6 sl && !coreProgramB5 sl) = true := by decide +kernel
+
+/-- its index run succeeds (C03) and - by `core_workspace_no_diagnostics` - reports nothing -/
+example : ∃ ws res, buildWorkspace [("/w/core.td", core6Source)] "/w/core.td" none = .ok ws ∧
+    coreWorkspaceB ws = true ∧ index ws = .ok res ∧ res.diagnostics = #[] :=
+  checked_no_diagnostics _ _ core6Source_checked
+
+/-- a list with elements of two types and a list of the wrong element type are rejected by the judgement -/
+example : (match buildWorkspace [("/w/bad.td", "def d { list<int> a = [1, \"x\"]; }\n")] "/w/bad.td" none with
+    | .ok ws => coreWorkspaceB ws
+    | .error _ => true) = false := by decide +kernel
+example : (match buildWorkspace [("/w/bad.td", "def d { list<int> a = [\"x\"]; }\n")] "/w/bad.td" none with
+    | .ok ws => coreWorkspaceB ws
+    | .error _ => true) = false := by decide +kernel
+
+/-- an unknown identifier as initialiser and a variable of the wrong type are rejected by the judgement -/
+example : (match buildWorkspace [("/w/bad.td", "defvar a = 1;\ndef d { int x = b; }\n")] "/w/bad.td" none with
+    | .ok ws => coreWorkspaceB ws
+    | .error _ => true) = false := by decide +kernel
+example : (match buildWorkspace [("/w/bad.td", "defvar a = \"s\";\ndef d { int x = a; }\n")] "/w/bad.td" none with
+    | .ok ws => coreWorkspaceB ws
+    | .error _ => true) = false := by decide +kernel
 
 /-- a missing argument without default, an argument of the wrong type, too many arguments and a repeated
 parameter name are rejected by the judgement -/
